@@ -185,6 +185,21 @@ static void k_muladd(Tape &t)
 	EC_POINT_add(c.grp, R.p, T1.p, T2.p, bnctx);
 	bool inf = EC_POINT_is_at_infinity(c.grp, R.p);
 	Bytes ab = point_bytes(c, A.p), bb = point_bytes(c, Bp.p);
+	// bearssl_ec.h on muladd: "If either integer is zero, then an error is reported" (one case in eight)
+	unsigned zsel = t.u8() % 16;
+	if (zsel >= 14) {
+		size_t nl = (size_t)BN_num_bytes(c.order);
+		bool zx = zsel == 14 || t.flag(), zy = zsel == 15 || !zx;
+		if (zx) { xe.assign(t.u8() % (nl + 1), 0); xc = "ZERO"; }
+		if (zy) { ye.assign(t.u8() % (nl + 1), 0); yc = "ZERO"; }
+		std::string dz = fmt("%s %s muladd x:%s(%zu bytes) y:%s(%zu bytes) B=%s", im.name, c.name, xc, xe.size(), yc, ye.size(), Bnull ? "NULL(generator)" : "explicit");
+		uint8_t none = 0;
+		uint32_t rz = im.impl->muladd(ab.data(), Bnull ? nullptr : bb.data(), ab.size(), xe.empty() ? &none : xe.data(), xe.size(), ye.empty() ? &none : ye.data(), ye.size(), c.id);
+		VF_CHECK(rz == 0, "%s: a zero multiplier must be reported as an error (documented), muladd returned %u and the point %s..", dz.c_str(), rz, hex(ab.data(), ab.size(), 12).c_str());
+		stats.cls("muladd:zero-multiplier");
+		stats.eval(fmt("muladd0/%s/%s/%d%d/%zu/%zu/%d", im.name, c.name, zx, zy, xe.size(), ye.size(), Bnull));
+		return;
+	}
 	std::string desc = fmt("%s %s muladd x:%s y:%s B=%s %s", im.name, c.name, xc, yc, Bnull ? "NULL(generator)" : "explicit", rn);
 	uint32_t r = im.impl->muladd(ab.data(), Bnull ? nullptr : bb.data(), ab.size(), xe.data(), xe.size(), ye.data(), ye.size(), c.id);
 	if (inf) VF_CHECK(r == 0, "%s: x*A + y*B is the point at infinity but muladd reports success", desc.c_str());
